@@ -44,10 +44,12 @@ def strings_of(v):
             yield from strings_of(x)
 
 
-def wf(v, tmp="\x01"):
-    """depth <= 2, lists non-empty, a list of >= 2 elements does not end in '', no tmp char"""
+def wf(v, tmp=None):
+    """depth <= 2, lists non-empty, a list of >= 2 elements does not end in ''; and, when the code's
+    cleanse goes through a temporary character tmp (the model's cleanse_tmp, regenerated from the code;
+    None on a tree with the one-pass un-escape), no string contains it"""
     def str_ok(s):
-        return tmp not in s
+        return tmp is None or tmp not in s
 
     def last_ok(l):
         return len(l) < 2 or l[-1] != ""
@@ -63,8 +65,14 @@ def wf(v, tmp="\x01"):
 
 
 def wf_statement(v):
-    """the domain of the property statement, *without* the tmp-char exclusion"""
-    return wf(v, tmp="\udfff")
+    """the domain of the property statement: no condition on the strings"""
+    return wf(v, tmp=None)
+
+
+def u1_key(strs, other):
+    """failures on values containing U+0001 belong to the finding of that name (the temporary character
+    of the three-replace cleanse); every other failure is its own class"""
+    return "value-contains-U+0001" if any("\x01" in x for x in strs) else other
 
 
 def has_unescaped(s, seps="|;"):
@@ -101,7 +109,7 @@ def subst(v, a, b):
 
 
 # ---- value generators ----------------------------------------------------------------
-POOL = ["", "a", " ", "|", ";", "\\", "a|b", " a ", "\\;", "b\\", "é", "\n", "\x01", "x;y|z", "\\\\|"]
+POOL = ["", "a", " ", "|", ";", "\\", "a|b", " a ", "\\;", "b\\", "é", "\n", "\x01", "x;y|z", "\\\\|", "a\x01b", "\\\x01", "\x01;\x01|"]
 
 
 def rand_str(rng, maxlen=6):
@@ -130,13 +138,26 @@ def run(ctx):
     thorough = ctx.tier == "thorough"
     m = ctx.model
 
+    # which un-escape does the code have?  The model follows the regenerated constant cleanse_tmp
+    # (Some t: three replaces through t; None: one pass).  Its value only steers the correspondence of
+    # wfb and the alphabet (a temporary character other than U+0001 must be exercised too); the ORACLE
+    # never looks at it: U+0001 and every other character are ordinary values of the statement.
+    tmp = None
+    alpha = list(ALPHA)
+    if m:
+        t = parse_sexp(m.ask("(1 10)"))
+        tmp = chr(t[0]) if t else None
+        if tmp is not None and tmp not in alpha:
+            alpha.append(tmp)
+    ctx.stats["model_cleanse_tmp"] = repr(tmp) if m else "model not built"
+
     # ------------------------------------------------ exhaustive small scope (strings)
     maxlen = 7 if thorough else 5
     if ctx.scale > 1:
         maxlen = min(maxlen + 1, 7)
     strings = [""]
     for n in range(1, maxlen + 1):
-        strings += ["".join(t) for t in itertools.product(ALPHA, repeat=n)]
+        strings += ["".join(t) for t in itertools.product(alpha, repeat=n)]
     ctx.count("exhaustive_strings", len(strings))
 
     nontrivial = set()
@@ -157,7 +178,8 @@ def run(ctx):
             reqs = []
             for s in chunk:
                 e = enc_str(s)
-                reqs += [f"(1 1 {e} 0)", f"(1 1 {e} 1)", f"(1 2 {e})", f"(1 3 {e})", f"(1 4 {e})"]
+                reqs += [f"(1 1 {e} 0)", f"(1 1 {e} 1)", f"(1 2 {e})", f"(1 3 {e})", f"(1 4 {e})",
+                         f"(1 12 {enc_str(s.strip())})"]
             outs = m.ask_many(reqs)
         for i, s in enumerate(chunk):
             im = impl_all(s)
@@ -165,11 +187,17 @@ def run(ctx):
             if has_unescaped(s) or "\\" in s:
                 nontrivial.add(s)
             if m:
-                o = outs[5 * i:5 * i + 5]
+                o = outs[6 * i:6 * i + 6]
                 mo = (dec_split(parse_sexp(o[0])), dec_split(parse_sexp(o[1])), dec_nv(parse_sexp(o[2])),
                       dec_str(parse_sexp(o[3])), dec_str(parse_sexp(o[4])))
                 if mo != im:
                     ctx.disagree("cell functions on a string", repr(s), repr(mo), repr(im))
+                # the one-pass un-escape IS cleanse: on every string when the code has no temporary
+                # character, on every string without it otherwise (theorem phases_one_pass)
+                if tmp is None or tmp not in s:
+                    mu = dec_str(parse_sexp(o[5]))
+                    if mu != im[3]:
+                        ctx.disagree("unescape(strip s) vs cleanse", repr(s), repr(mu), repr(im[3]))
             # oracle (C08-3): no unescaped separator <=> plain string
             r = im[2]
             if has_unescaped(s) != isinstance(r, list):
@@ -177,19 +205,18 @@ def run(ctx):
             # oracle (C08-1): every string survives escape + split, trimmed
             back = cp.split_into_lists(cp.join_from_lists(s))
             if back != s.strip():
-                key = "value-contains-U+0001" if "\x01" in s else "string-roundtrip"
-                v.failing_input(key, f"split(join({s!r})) = {back!r}", dict(fn="roundtrip", value=s))
+                v.failing_input(u1_key([s], "string-roundtrip"), f"split(join({s!r})) = {back!r}", dict(fn="roundtrip", value=s))
 
     # ------------------------------------------------ nested values: join, wf, round trip
     n_vals = (60000 if thorough else 6000) * ctx.scale
     vals = []
-    # structured enumeration: all depth-1 lists of length <= 3 over a pool of 8 strings
-    small = ["", "a", " ", "|", ";", "\\", "b\\", "\\;"]
+    # structured enumeration: all depth-1 lists of length <= 3 over a pool of 9 strings
+    small = ["", "a", " ", "|", ";", "\\", "b\\", "\\;", "\x01"]
     for n in range(0, 4):
         for t in itertools.product(small, repeat=n):
             vals.append(list(t))
-    # all depth-2 values with <= 2 elements of <= 2 leaves over 4 strings
-    leaves = ["", "a", ";", "\\"]
+    # all depth-2 values with <= 2 elements of <= 2 leaves over 5 strings
+    leaves = ["", "a", ";", "\\", "\x01"]
     elems = list(leaves) + [list(t) for n in range(0, 3) for t in itertools.product(leaves, repeat=n)]
     for n in range(1, 3):
         for t in itertools.product(elems, repeat=n):
@@ -202,7 +229,7 @@ def run(ctx):
         reqs = []
         for x in vals:
             e = enc_nv(x)
-            reqs += [f"(1 5 {e})", f"(1 6 {e})", f"(1 7 {e})"]
+            reqs += [f"(1 5 {e})", f"(1 6 {e})", f"(1 7 {e})", f"(1 11 {e})"]
         outs = m.ask_many(reqs)
     seen = set()
     for i, x in enumerate(vals):
@@ -216,13 +243,16 @@ def run(ctx):
             dist["join_error"] += 1
         if depth(x) >= 3:
             dist["depth3+"] += 1
-        is_wf = wf(x)
+        is_wf = wf(x, tmp)
         dist["wf" if is_wf else "not_wf"] += 1
         if m:
-            mj = parse_sexp(outs[3 * i])
+            mj = parse_sexp(outs[4 * i])
             mj = dec_str(mj[0]) if mj else None
-            mwf = parse_sexp(outs[3 * i + 1]) == 1
-            mtrim = dec_nv(parse_sexp(outs[3 * i + 2]))
+            mwf = parse_sexp(outs[4 * i + 1]) == 1
+            mtrim = dec_nv(parse_sexp(outs[4 * i + 2]))
+            mshape = parse_sexp(outs[4 * i + 3]) == 1
+            if mshape != wf_statement(x):
+                ctx.disagree("shape_ok vs the statement's domain", repr(x), mshape, wf_statement(x))
             if mj != j:
                 ctx.disagree("join_from_lists", repr(x), repr(mj), repr(j))
             if mwf != is_wf:
@@ -242,8 +272,7 @@ def run(ctx):
             # *blank* element: the domain of the statement is wf(x) and wf(trim(x))
             back_parse = cp.parse(j) if wf_statement(trim(x)) else trim(x)
             if back != trim(x) or back_parse != trim(x):
-                k = "value-contains-U+0001" if any("\x01" in s for s in strings_of(x)) else "list-roundtrip"
-                v.failing_input(k, f"split(join({x!r})) = {back!r}", dict(fn="roundtrip", value=x))
+                v.failing_input(u1_key(strings_of(x), "list-roundtrip"), f"split(join({x!r})) = {back!r}", dict(fn="roundtrip", value=x))
     ctx.stats["nested_values"] = dist
 
     # ------------------------------------------------ random long strings (incl. unicode spaces)
@@ -282,21 +311,20 @@ def run(ctx):
     n_inert = 0
     for _ in range(n_t):
         pre, post, d = rand_str(rng, 4), rand_str(rng, 4), rand_str(rng, 5)
-        for bad in ("{", "}", "\x01"):
+        for bad in ("{", "}"):
             pre, post = pre.replace(bad, ""), post.replace(bad, "")
-        d = d.replace("\x01", "")
         v.coverage["evaluations"] += 1
         tmpl = pre + "{{x|escape}}" + post
         r = run_cli_mode(cp.parse, tmpl, {"x": d})
         if r[0] != "ok":
-            v.failing_input("template-error", f"parse({tmpl!r}, x={d!r}) -> {r}", dict(fn="inert", pre=pre, post=post, d=d))
+            v.failing_input(u1_key([pre, post, d], "template-error"), f"parse({tmpl!r}, x={d!r}) -> {r}", dict(fn="inert", pre=pre, post=post, d=d))
             continue
         got = r[1]
         # expanded before split: parse strips the *template*, renders, then splits the text
         lpre, rpost = pre.lstrip(), post.rstrip()
         expanded = lpre + CellParser.escape_string(d) + rpost
         if got != cp.split_into_lists(expanded):
-            v.failing_input("expand-then-split", f"parse({tmpl!r}, x={d!r}) = {got!r}", dict(fn="inert", pre=pre, post=post, d=d))
+            v.failing_input(u1_key([pre, post, d], "expand-then-split"), f"parse({tmpl!r}, x={d!r}) = {got!r}", dict(fn="inert", pre=pre, post=post, d=d))
         if m:
             mo = dec_nv(parse_sexp(m.ask(f"(1 2 {enc_str(expanded)})")))
             if mo != got:
@@ -312,14 +340,14 @@ def run(ctx):
             n_inert += 1
             want = inert_expect(cp, lpre, rpost, d)
             if got != want:
-                v.failing_input("escape-not-inert", f"parse({tmpl!r}, x={d!r}) = {got!r}, expected {want!r}",
+                v.failing_input(u1_key([pre, post, d], "escape-not-inert"), f"parse({tmpl!r}, x={d!r}) = {got!r}, expected {want!r}",
                                 dict(fn="inert", pre=pre, post=post, d=d))
     ctx.stats["inertness_cases"] = n_inert
 
     v.coverage["distinct_nontrivial"] = len(nontrivial)
     v.coverage["exhaustive"] = True
     v.coverage["rule"] = (
-        f"exhaustive: every string of length <= {maxlen} over {ALPHA!r} through split_by_separator (both separators), "
+        f"exhaustive: every string of length <= {maxlen} over {alpha!r} through split_by_separator (both separators), "
         "split_into_lists, cleanse, escape_string on model and implementation; enumerated + random nested values "
         "(85% well-formed by construction, 15% malformed incl. empty lists, depth 3, trailing blanks) through "
         "join_from_lists/wfb/trim and the round-trip oracle; random long/unicode strings; templates with the escape filter. "
